@@ -294,7 +294,8 @@ def check_rule(case):
         spec = {"cls": "biclosed", "dom": specs.bdom(fa) + case["c"],
                 "layers": [[fa, 0], [{"k": "box", "name": "g",
                                       "dom": case["a"] + case["c"],
-                                      "cod": case["b"], "dag": False}, 0]]}
+                                      "cod": case["b"], "dag": False,
+                                      "word": case["n"] % 2 == 0}, 0]]}
         d = specs.build(spec)
         image = biclosed2rigid(d)
         specs.well_typed(image, "biclosed2rigid")
@@ -410,6 +411,23 @@ def check_tree(case):
     require(specs.tkey(image.dom) == ()
             and specs.tkey(image.cod) == rigid_key(upper_names(result)),
             "C18:tree-image-type", lambda: "{} -> {}".format(d, image))
+    # a leaf with inputs (tree2diagram's `dom` argument): a word box b @ c -> a
+    leaf_dom = b + c
+    leaf = tree2diagram(word("w", a), dom=xspec.bty(leaf_dom))
+    specs.well_typed(leaf, "tree2diagram(leaf, dom)")
+    require(specs.tkey(leaf.dom) == specs.skey_ty(leaf_dom)
+            and specs.tkey(leaf.cod) == specs.skey_ty(upper_names(a)),
+            "C18:tree2diagram-type", lambda: "leaf {} : {} -> {}".format(
+                leaf, leaf.dom, leaf.cod))
+    for what, dd in (("leaf", leaf), ("leaf in context", d @ leaf)):
+        image = biclosed2rigid(dd)
+        specs.well_typed(image, "biclosed2rigid({})".format(what))
+        require(specs.tkey(image.dom) == rigid_key(leaf_dom)
+                and specs.tkey(image.cod) == rigid_key(
+                    (upper_names(result) if dd is not leaf else [])
+                    + upper_names(a)),
+                "C18:tree-image-type", lambda: "{}: {} -> {} : {} -> {}"
+                .format(what, dd, image, image.dom, image.cod))
     deep = any(isinstance(t[0], dict) for t in (a, b, c))
     return dict(nt=deep, labels=[rule], show=common.show(d, 200))
 
